@@ -178,7 +178,11 @@ func ItemsKey(items []bridge.Item) string {
 func GetRaw(t util.MerklePatriciaTrieI, p []byte) (res string, val []byte) {
 	res = Guard(func() string {
 		v, err := t.GetNodeValueRaw(util.Path(p))
-		val = v
+		val = append([]byte(nil), v...)
+		// the caller owns what a lookup hands out: writing into it must not reach the stored node
+		for i := range v {
+			v[i] ^= 0xa5
+		}
 		return ResClass(err)
 	})
 	return
@@ -225,6 +229,17 @@ func SweepDB(db util.NodeDB, version int64) SweepResult {
 		return nil
 	})
 	return r
+}
+
+// InsertScribbled inserts through the library's own value type and then rewrites the buffer it handed in (a caller that
+// re-uses its scratch buffer): the trie keeps its own copy of a value.
+func InsertScribbled(t util.MerklePatriciaTrieI, p, v []byte) (util.Key, error) {
+	buf := append([]byte(nil), v...)
+	r, err := t.Insert(util.Path(append([]byte(nil), p...)), &util.SecureSerializableValue{Buffer: buf})
+	for i := range buf {
+		buf[i] ^= 0xa5
+	}
+	return r, err
 }
 
 // Val wraps bytes as a trie value.
